@@ -186,9 +186,13 @@ def resize_rules(ck, rules):
                             okg = "ge"
                         elif isinstance(op, ast.Gt) and _threshold_ok(prog, l) and dotted(r) == "self.n_word":
                             okg = "lt"
-                if isinstance(st.value, ast.Compare) and not gs:
-                    # status['extended_prec'] = self.n_word >= T
-                    c = st.raw_value
+                def _unbool(e):
+                    while isinstance(e, ast.Call) and dotted(e.func) == "bool" and len(e.args) == 1 and not e.keywords:
+                        e = e.args[0]
+                    return e
+                if isinstance(_unbool(st.value), ast.Compare) and not gs:
+                    # status['extended_prec'] = self.n_word >= T   (also wrapped in bool(...))
+                    c = _unbool(st.raw_value)
                     if isinstance(c, ast.Compare) and len(c.ops) == 1 and isinstance(c.ops[0], ast.GtE) and dotted(c.left) == "self.n_word" and _threshold_ok(prog, c.comparators[0]):
                         okg = "direct"
                 if not okg:
